@@ -78,6 +78,7 @@ PLANS = {
                   ex("spng4", "spng", 4, 3, kinds=["mapped"], modes=["E"], invariants=INV_SPANS),
                   ex("spn2", "spn", 2, 3, kinds=["slice", "array", "bytes"], modes=["E"], invariants=INV_SPANS),
                   ex("gapT", "gapT", 1, 3, alphabet=["a", "b", "E"], kinds=["str", "mapped", "mstream", "slice"], modes=["E"], invariants=INV_SPANS),
+                  ex("spni3", "spni", 3, 3, kinds=["iter"], modes=["E"], invariants=INV_SPANS), ex("gapTi", "gapTi", 1, 3, kinds=["iter"], modes=["E"], invariants=INV_SPANS),
                   ex("spnr3", "spnr", 3, 3, kinds=["mapped", "slice"], modes=["E"], invariants=INV_SPANS),
                   rec("spnR", "spn", 1500, 8, 8, kinds=["str", "slice"]), rec("spngR", "spng", 1500, 8, 8, kinds=["mapped", "mstream", "stream"]),
                   rec("spnrR", "spnr", 1000, 8, 8, kinds=["mapped", "slice", "wctx", "mapspan"])],
@@ -101,6 +102,7 @@ PLANS = {
                   ex("spn2g", "spn", 2, 3, alphabet=["a", "G", "U"], kinds=["graph", "str"], modes=["E"]),
                   ex("spng3k", "spng", 3, 3, kinds=["mapped", "mstream", "wctx", "mapspan"], modes=["E"]),
                   ex("gapTk", "gapT", 1, 3, kinds=["mapped", "mstream", "stream", "wctx", "mapspan", "io", "slice"], modes=["E"]),
+                  ex("spni3", "spni", 3, 3, kinds=["iter", "mapped"], modes=["E"]), ex("gapTi", "gapTi", 1, 3, kinds=["iter"]),
                   rec("pegRk", "peg", 2500, 8, 8, kinds=ALL_KINDS), rec("spngRk", "spng", 1500, 8, 8, kinds=["mapped", "mstream", "stream", "wctx", "mapspan", "io"])],
         "thorough": [ex("peg2k", "peg", 2, 3, kinds=ALL_KINDS), ex("rep2k", "rep", 2, 4, alphabet=["a", ","], kinds=ALL_KINDS, modes=["E"]),
                      ex("rcv3k", "rcv", 3, 3, kinds=["bstream", "mstream", "wctx", "io"], modes=["E"]),
@@ -108,6 +110,7 @@ PLANS = {
                      ex("spn3g", "spn", 3, 3, alphabet=["a", "G", "U", "E"], kinds=["graph", "str"]),
                      ex("spng4k", "spng", 4, 3, kinds=["mapped", "mstream", "wctx", "mapspan"], modes=["E"]),
                      ex("gapTk", "gapT", 1, 4, kinds=ALL_KINDS),
+                     ex("spni4", "spni", 4, 3, kinds=["iter", "mapped"], modes=["E"]), ex("gapTi", "gapTi", 1, 4, kinds=["iter"]),
                      rec("pegRk", "peg", 30000, 10, 10, kinds=ALL_KINDS), rec("spngRk", "spng", 20000, 10, 10, kinds=["mapped", "mstream", "stream", "wctx", "mapspan", "io"])],
     },
     "C08": {
